@@ -72,13 +72,23 @@ def stage_a(prop, cfg, tier, log):
             res["ok"] = False
             res["failures"].append("generator %s failed: %r" % (g, exc))
             log(traceback.format_exc())
-    targets = list(cfg.get("lean_modules", [])) + ["astral-model"]
-    rc, out = sh(["lake", "build"] + targets, cwd=LEAN_DIR, timeout=7200)
-    log(out[-6000:])
+    # build each theorem module on its own, so that one broken obligation does not hide the rest
+    rc, out = sh(["lake", "build", "astral-model"], cwd=LEAN_DIR, timeout=7200)
+    log(out[-3000:])
     if rc != 0:
         res["ok"] = False
-        errs = [l for l in out.split("\n") if "error" in l][:8]
-        res["failures"].append("lake build failed: " + " | ".join(errs)[:1500])
+        res["failures"].append("model driver does not build: " + out[-600:])
+    built = []
+    for m in cfg.get("lean_modules", []):
+        rcm, outm = sh(["lake", "build", m], cwd=LEAN_DIR, timeout=7200)
+        log(outm[-4000:])
+        if rcm == 0:
+            built.append(m)
+        else:
+            res["ok"] = False
+            errs = [l for l in outm.split("\n") if "error" in l][:6]
+            res["failures"].append("lake build %s failed: %s" % (m, " | ".join(errs)[:1200]))
+    rc = 0 if built else 1
     theorems = cfg.get("theorems", [])
     res["obligations"] = len(theorems)
     if theorems and rc == 0:
@@ -86,7 +96,7 @@ def stage_a(prop, cfg, tier, log):
         os.makedirs(audit_dir, exist_ok=True)
         path = os.path.join(audit_dir, prop + ".lean")
         with open(path, "w") as f:
-            for m in cfg["lean_modules"]:
+            for m in built:
                 f.write("import %s\n" % m)
             for t in theorems:
                 f.write("#print axioms %s\n" % t)
@@ -110,7 +120,12 @@ def stage_a(prop, cfg, tier, log):
             else:
                 res["ok"] = False
                 entry["axioms"] = None
-                res["failures"].append("theorem %s does not check (missing or broken)" % t)
+                if not any(t.startswith(m.replace("Astral.Props.", "Astral.") + ".") or
+                           t.startswith(m.replace("Props.", "") + ".") for m in cfg["lean_modules"]
+                           if m not in built):
+                    res["failures"].append("theorem %s does not check (missing or broken)" % t)
+                else:
+                    res["failures"].append("theorem %s: its module no longer builds" % t)
             res["theorems"].append(entry)
     elif theorems:
         res["theorems"] = [{"name": t, "axioms": None} for t in theorems]
@@ -118,8 +133,8 @@ def stage_a(prop, cfg, tier, log):
     if hits:
         res["ok"] = False
         res["failures"].append("forbidden constructs: " + "; ".join(hits[:5]))
-    if tier == "thorough" and rc == 0 and cfg.get("lean_modules"):
-        rc3, out3 = sh(["lake", "env", "leanchecker"] + cfg["lean_modules"], cwd=LEAN_DIR,
+    if tier == "thorough" and built:
+        rc3, out3 = sh(["lake", "env", "leanchecker"] + built, cwd=LEAN_DIR,
                        timeout=7200)
         log(out3[-3000:])
         res["leanchecker"] = "ok" if rc3 == 0 else "failed"
@@ -323,7 +338,8 @@ def main():
         replay_path = os.path.join("replays", "%s-%d.json" % (prop, seed))
         budget = 600 if tier == "thorough" else 120
         broken = {"proof_failures": a["failures"], "correspondence_mismatches": b["mismatches"][:5],
-                  "fixed_finding_regressions": kviol}
+                  "fixed_finding_regressions": kviol, "tier": tier,
+                  "groups": cfg.get("groups", [])}
         try:
             found = search.run(prop, seed, budget, broken)
         except Exception:  # noqa: BLE001
